@@ -105,13 +105,17 @@ def run_cases(prop: Prop, cases: list[dict], jobs: int = 1, with_model: bool = T
     else:
         runs = [_safe_impl(prop, c) for c in cases]
     results = []
-    blocks, idx = [], []
+    by_driver: dict[str, tuple[list, list]] = {}
     for i, r in enumerate(runs):
-        if with_model and prop.driver and r.lines and not r.skipped:
+        drv = getattr(r, "driver", None) or prop.driver
+        if with_model and drv and r.lines and not r.skipped:
+            blocks, idx = by_driver.setdefault(drv, ([], []))
             blocks.append(["reset"] + [l for l, _, _ in r.lines])
             idx.append(i)
-    outs = core.run_lean_parallel(prop.driver, blocks, jobs=min(jobs, 8)) if blocks else []
-    model_out = {i: o[1:] for i, o in zip(idx, outs)}
+    model_out = {}
+    for drv, (blocks, idx) in by_driver.items():
+        outs = core.run_lean_parallel(drv, blocks, jobs=min(jobs, 8)) if blocks else []
+        model_out.update({i: o[1:] for i, o in zip(idx, outs)})
     for i, (c, r) in enumerate(zip(cases, runs)):
         dis = []
         if i in model_out:
